@@ -19,7 +19,7 @@ def run(ck):
     if m["violated"]:
         raise ToolError("MC_Breaks: theorem violated inside the model; see %s" % m["out"])
     props.pipeline_inputs(ck, [("break", 5 if ck.tier == "thorough" else 4)])
-    pool = props.full_pool(ck)
+    pool = props.full_pool(ck, rendered=True)
     out = ck.wd("c14.ndjson")
     s, crash = props.run_recorder(ck, ["c14", "--pool", pool, "--out", out], out)
     if crash:
